@@ -199,6 +199,16 @@ class World:
             self.fu_schedule = FollowUpMobileSchedule(
                 self.fu_name, self.sites, self.start, end, self.cap, self.fu_method.get_crew_count())
             self.fu_method._sensor = NullSensor()
+            # a routine tagging-capable (component-level) method: its completed surveys find nothing to tag
+            # (every leak below its detection limit), the real survey_site stamps the site all the same
+            self.tag_name = "OGI_routine" if "OGI_routine" not in names else "OGI_routine_x"
+            for st_ in self.sites:
+                st_._survey_frequencies[self.tag_name] = None
+                st_._deployment_years[self.tag_name] = []
+                st_._deployment_months[self.tag_name] = list(range(1, 13))
+            self.tag_method = ComponentLevelMethod(
+                self.tag_name, _base_props("mobile", False, 0, 1, 24), False, self.sites, "")
+            self.tag_method._sensor = NullSensor()
             self.methods = []
             for nm, pr in zip(self.mnames, self.props):
                 m = SiteLevelMethod(nm, pr, False, sites=self.sites,
@@ -214,6 +224,8 @@ class World:
         self.crash = None
         self.releases = []
         self.snaps = []
+        self.tag_days = [[] for _ in range(n)]     # completion days of tagging-capable surveys per site, from the
+        #                                            OBSERVED survey reports (whether or not anything was tagged)
         self.screen_log = []                       # every COMPLETED screening survey, from the survey reports
         self.carried = [dict() for _ in range(k)]  # screening surveys in progress: site -> (planner, rate)
         self._wrap_queue_puts()
@@ -247,7 +259,8 @@ class World:
                         "rates": [frac(x) for x in plan._detected_rates],
                         "long": frac(getattr(plan, "rate_at_site_long", 0)),
                         "windows": (getattr(plan, "_small_window", None), getattr(plan, "_long_window", None)),
-                        "tag": world.d2i(plan._site.get_latest_tagging_survey_date()),
+                        "tag": world.latest_tag(si),
+                        "tag_attr": world.d2i(plan._site.get_latest_tagging_survey_date()),
                         # membership at the start of this update, read from the CONTENT of queue and pool
                         "was_queued": world.pre_queue_count.get(si, 0) > 0,
                         "was_pooled": si in world.pre_pool_sites,
@@ -352,9 +365,21 @@ class World:
         self.who = "-"
         return tf.sites_flagged
 
+    def latest_tag(self, s):
+        """day of the site's latest completed tagging-capable survey according to the observed survey log
+        (0 = the first simulated day, the value a site starts with) — never read from the site object"""
+        return max(self.tag_days[s]) if self.tag_days[s] else 0
+
     def tagging_survey(self, s, dn):
-        """another (routine) tagging method completed a survey of the site"""
-        self.sites[s].set_latest_tagging_survey_date(self.day(dn))
+        """a routine tagging-capable method surveys the site: the REAL ComponentLevelMethod.deploy_crews /
+        survey_site on a one-site work plan; the survey completes and tags nothing"""
+        cur = self.day(dn)
+        pl = SurveyPlanner(self.sites[s])
+        wp = Workplan([pl], cur)
+        self.tag_method.deploy_crews(wp, None, None)
+        rep = pl.get_current_survey_report()
+        if rep.survey_complete:
+            self.tag_days[s].append(self.d2i(rep.survey_completion_date))
 
     def follow_up_day(self, dn):
         """the follow-up method's day: real get_workplan, deploy_crews, schedule.update"""
@@ -369,7 +394,7 @@ class World:
         wp = self.fu_schedule.get_workplan(cur)
         plans = list(wp.site_survey_planners.values())
         planned = [p.site_id for p in plans]
-        pre = [(self.d2i(p._latest_detection_date), self.d2i(p._site.get_latest_tagging_survey_date()),
+        pre = [(self.d2i(p._latest_detection_date), self.latest_tag(self.idx[p.site_id]),
                 [frac(x) for x in p._detected_rates], frac(p.rate_at_site),
                 (getattr(p, "_small_window", None), getattr(p, "_long_window", None))) for p in plans]
         self.fu_method.deploy_crews(wp, None, None)
@@ -379,6 +404,8 @@ class World:
             r = reports[sid]
             o = "c" if r.survey_complete else ("p" if r.survey_in_progress else "u")
             outcomes.append((self.idx[sid], o))
+            if r.survey_complete:
+                self.tag_days[self.idx[sid]].append(self.d2i(r.survey_completion_date))
             self.visits.append({"day": dn, "site": self.idx[sid], "outcome": o, "latest": latest,
                                 "tag_before": tag_before, "rates": prates, "rate": prate, "windows": pwin,
                                 "was_queued": self.pre_queue_count.get(self.idx[sid], 0) > 0,
@@ -484,8 +511,15 @@ def iter_history(hist, props=None):
     yield None
     for dn, dd in enumerate(hist["days"]):
         for s in dd.get("tag", []):
-            w.tagging_survey(s, dn)
             lines.append("tag %d %d" % (s, dn))
+            try:
+                with contextlib.redirect_stdout(sink), contextlib.redirect_stderr(sink):
+                    w.tagging_survey(s, dn)
+            except (Exception, SystemExit) as e:  # noqa: BLE001
+                w.crash = {"day": dn, "method": "tag", "type": type(e).__name__, "msg": str(e)[:200]}
+                impl.append("crash:" + type(e).__name__)
+                yield (lines, impl, w)
+                return
             impl.append("ok " + w.dump())
         for i in range(len(w.methods)):
             screens = [(s, p, q) for (mi, s, p, q) in dd.get("screen", []) if mi == i]
@@ -510,7 +544,7 @@ def iter_history(hist, props=None):
             for sv in w.screen_log:
                 if sv["method"] == i and sv["completed"] == dn - rd:
                     rel.append({"day": dn, "method": i, "site": sv["site"], "rate": sv["rate"], "dc": dn - rd,
-                                "tag": w.d2i(w.sites[sv["site"]]._latest), "pre": w.site_plans(i, sv["site"])})
+                                "tag": w.latest_tag(sv["site"]), "pre": w.site_plans(i, sv["site"])})
             try:
                 with contextlib.redirect_stdout(sink), contextlib.redirect_stderr(sink):
                     nf = w.update(i, dn)
